@@ -572,3 +572,95 @@ Proof.
     + rewrite (logfmt_fields_is_lookup ps pairs k Hnd Hk) in Hfound. unfold first_key in Hfound.
       destruct (pfind ps k) as [p|] eqn:E; [exact (pfind_some_mem _ _ _ E)|congruence].
 Qed.
+
+(* ---------------------------------------------------------------------------------------------------------------- *)
+(* the name of a nested key is the names of its parts joined with "_": an ASCII byte never completes a character *)
+Lemma byte_in_ascii x lo hi : (N_of_ascii x < 128)%N -> (128 <= lo)%N -> byte_in lo hi x = false.
+Proof. intros Hx Hlo. unfold byte_in. cbv zeta. apply andb_false_iff. left. apply N.leb_gt. lia. Qed.
+
+Lemma rune_width_ascii_tail c x b : (N_of_ascii x < 128)%N -> forall r, rune_width c (r ++ String x b) = rune_width c r.
+Proof.
+  intros Hx r.
+  assert (Hc : cont x = false) by (apply byte_in_ascii; [exact Hx|lia]).
+  assert (Hb : forall lo hi, (128 <= lo)%N -> byte_in lo hi x = false) by (intros; now apply byte_in_ascii).
+  unfold rune_width. cbv zeta.
+  destruct r as [|b1 [|b2 [|b3 r']]]; cbn [append];
+    repeat match goal with |- context [if ?t then _ else _] =>
+      match t with
+      | (_ <? _)%N => destruct t
+      | (_ <=? _)%N => destruct t
+      | (_ =? _)%N => destruct t
+      end end; try reflexivity;
+    rewrite ?Hb by lia; rewrite ?Hc; try reflexivity;
+    repeat match goal with |- context [byte_in ?lo ?hi b1] => destruct (byte_in lo hi b1) end; try reflexivity;
+    rewrite ?andb_false_r; try reflexivity;
+    try (destruct b; reflexivity);
+    repeat match goal with |- context [cont ?y] => destruct (cont y) end; try reflexivity; destruct b; reflexivity.
+Qed.
+
+Lemma rune_width_le c r : (rune_width c r <= S (String.length r))%nat.
+Proof.
+  unfold rune_width. cbv zeta.
+  destruct r as [|b1 [|b2 [|b3 r']]]; cbn [String.length];
+    repeat match goal with |- context [if ?t then _ else _] => destruct t end; lia.
+Qed.
+
+Lemma drop_bytes_app : forall n r t, (n <= String.length r)%nat -> drop_bytes n (r ++ t) = (drop_bytes n r ++ t)%string.
+Proof.
+  induction n as [|n IH]; intros r t Hn; [destruct r; reflexivity|].
+  destruct r as [|c r]; cbn [String.length] in Hn; [lia|]. cbn [append drop_bytes]. apply IH. lia.
+Qed.
+Lemma drop_bytes_length : forall n r, (String.length (drop_bytes n r) <= String.length r)%nat.
+Proof.
+  induction n as [|n IH]; intros r; [destruct r; cbn; lia|]. destruct r as [|c r]; cbn [drop_bytes String.length]; [lia|].
+  specialize (IH r). lia.
+Qed.
+
+Lemma sanitize_fuel_any : forall f s f2, (String.length s <= f)%nat -> (String.length s <= f2)%nat ->
+  sanitize_fuel f s = sanitize_fuel f2 s.
+Proof.
+  induction f as [|f IH]; intros s f2 Hf Hf2.
+  - destruct s; [destruct f2; reflexivity|cbn in Hf; lia].
+  - destruct s as [|c r]; [destruct f2; reflexivity|]. cbn [String.length] in *.
+    destruct f2 as [|f2]; [lia|]. cbn [sanitize_fuel].
+    pose proof (drop_bytes_length (rune_width c r - 1) r) as Hd.
+    destruct (label_char c); f_equal; apply IH; lia.
+Qed.
+Lemma sanitize_fuel_enough f s : (String.length s <= f)%nat -> sanitize_fuel f s = sanitize_fuel (String.length s) s.
+Proof. intros H. apply sanitize_fuel_any; [exact H|lia]. Qed.
+
+Lemma sanitize_fuel_app x b : (N_of_ascii x < 128)%N -> forall f a, (String.length a <= f)%nat ->
+  sanitize_fuel (f + S (String.length b)) (a ++ String x b) =
+  (sanitize_fuel f a ++ sanitize_fuel (S (String.length b)) (String x b))%string.
+Proof.
+  intros Hx. induction f as [|f IH]; intros a Ha.
+  - destruct a; [reflexivity|cbn in Ha; lia].
+  - destruct a as [|c r].
+    + cbn [append sanitize_fuel]. apply sanitize_fuel_enough. cbn [String.length]. lia.
+    + cbn [String.length] in Ha. cbn [append Nat.add sanitize_fuel]. destruct (label_char c).
+      * cbn [append]. f_equal. apply IH. lia.
+      * cbn [append]. f_equal. rewrite (rune_width_ascii_tail c x b Hx r).
+        pose proof (rune_width_le c r) as Hw. pose proof (drop_bytes_length (rune_width c r - 1) r) as Hd.
+        rewrite drop_bytes_app by lia. apply IH. lia.
+Qed.
+
+Lemma sanitize_app_ascii a x b : (N_of_ascii x < 128)%N ->
+  sanitize (a ++ String x b) = (sanitize a ++ sanitize (String x b))%string.
+Proof.
+  intros Hx. unfold sanitize.
+  assert (L : String.length (a ++ String x b) = (String.length a + S (String.length b))%nat).
+  { induction a as [|c a IHa]; [reflexivity|]. cbn [append String.length]. now rewrite IHa. }
+  rewrite L. apply (sanitize_fuel_app x b Hx). lia.
+Qed.
+
+(* subDec's name of a nested key: the names of the parts joined with "_" *)
+Theorem nested_name_is_the_parts_joined prefix key :
+  label_name (join_key prefix key) =
+  if String.eqb prefix EmptyString then label_name key else (label_name prefix ++ "_" ++ label_name key)%string.
+Proof.
+  unfold join_key. destruct (String.eqb prefix EmptyString); [reflexivity|].
+  rewrite <- !sanitize_one_underscore_per_character.
+  change (prefix ++ "_" ++ key)%string with (prefix ++ String "_"%char key)%string.
+  rewrite sanitize_app_ascii by (vm_compute; reflexivity).
+  first [reflexivity | f_equal; unfold sanitize; cbn [String.length sanitize_fuel]; reflexivity].
+Qed.
